@@ -3525,17 +3525,18 @@ tsk_site_table_add_row(tsk_site_table_t *self, double position,
     if (ret != 0) {
         goto out;
     }
-    self->ancestral_state_length += ancestral_state_length;
-    tsk_memmove(self->ancestral_state + ancestral_state_offset, ancestral_state,
-        ancestral_state_length);
-    self->ancestral_state_offset[self->num_rows + 1] = self->ancestral_state_length;
-
     metadata_offset = (tsk_size_t) self->metadata_length;
     tsk_bug_assert(self->metadata_offset[self->num_rows] == metadata_offset);
     ret = tsk_site_table_expand_metadata(self, metadata_length);
     if (ret != 0) {
         goto out;
     }
+    /* Nothing can fail from here on, so an error return leaves the table unchanged */
+    self->ancestral_state_length += ancestral_state_length;
+    tsk_memmove(self->ancestral_state + ancestral_state_offset, ancestral_state,
+        ancestral_state_length);
+    self->ancestral_state_offset[self->num_rows + 1] = self->ancestral_state_length;
+
     self->metadata_length += metadata_length;
     tsk_memmove(self->metadata + metadata_offset, metadata, metadata_length);
     self->metadata_offset[self->num_rows + 1] = self->metadata_length;
@@ -4239,17 +4240,18 @@ tsk_mutation_table_add_row(tsk_mutation_table_t *self, tsk_id_t site, tsk_id_t n
     if (ret != 0) {
         goto out;
     }
-    self->derived_state_length += derived_state_length;
-    tsk_memmove(
-        self->derived_state + derived_state_offset, derived_state, derived_state_length);
-    self->derived_state_offset[self->num_rows + 1] = self->derived_state_length;
-
     metadata_offset = self->metadata_length;
     tsk_bug_assert(self->metadata_offset[self->num_rows] == metadata_offset);
     ret = tsk_mutation_table_expand_metadata(self, metadata_length);
     if (ret != 0) {
         goto out;
     }
+    /* Nothing can fail from here on, so an error return leaves the table unchanged */
+    self->derived_state_length += derived_state_length;
+    tsk_memmove(
+        self->derived_state + derived_state_offset, derived_state, derived_state_length);
+    self->derived_state_offset[self->num_rows + 1] = self->derived_state_length;
+
     self->metadata_length += metadata_length;
     tsk_memmove(self->metadata + metadata_offset, metadata, metadata_length);
     self->metadata_offset[self->num_rows + 1] = self->metadata_length;
